@@ -5,9 +5,11 @@ pub mod c04;
 pub mod c05;
 pub mod c06;
 pub mod c07;
+pub mod c08;
 pub mod c10;
 pub mod c11;
 pub mod c12;
+pub mod c13;
 pub mod c16;
 pub mod c17;
 pub mod c18;
@@ -25,10 +27,12 @@ pub fn run(ctx: &mut Ctx, id: &str) -> bool {
         "C05" => c05::run(ctx),
         "C06" => c06::run(ctx),
         "C07" => c07::run(ctx),
+        "C08" => c08::run(ctx),
         "C09" => c03::run_c09(ctx),
         "C10" => c10::run(ctx),
         "C11" => c11::run(ctx),
         "C12" => c12::run(ctx),
+        "C13" => c13::run(ctx),
         "C16" => c16::run(ctx),
         "C17" => c17::run(ctx),
         "C18" => c18::run(ctx),
@@ -47,10 +51,12 @@ pub fn replay(ctx: &Ctx, id: &str, label: &str, case: Value) -> Result<(), Strin
         "C05" => c05::replay(ctx, label, case),
         "C06" => c06::replay(ctx, label, case),
         "C07" => c07::replay(ctx, label, case),
+        "C08" => c08::replay(ctx, label, case),
         "C09" => c03::replay(ctx, label, case, c03::Side::Cyclic),
         "C10" => c10::replay(ctx, label, case),
         "C11" => c11::replay(ctx, label, case),
         "C12" => c12::replay(ctx, label, case),
+        "C13" => c13::replay(ctx, label, case),
         "C16" => c16::replay(ctx, label, case),
         "C17" => c17::replay(ctx, label, case),
         "C18" => c18::replay(ctx, label, case),
